@@ -1429,6 +1429,119 @@ namespace
     };
 }
 
+namespace
+{
+    // ================================================================ one ring seen through both dlist APIs
+    // The way igris' own semaphore does it: the head is a C `struct dlist_head` (dlist_init, dlist_empty, dlist_del_init of
+    // head.next), the same head handed to C++ code as igris::dlist_base* (move_back / move_front of igris::dlist_node members
+    // of the waiters, unlink, the waiters' destructors). Both views must describe one and the same ring.
+    // ops: [0 park-back w] [1 park-front w] [2 unlink w (C++)] [3 C: dlist_del_init(head.next)] [4 C: dlist_del_init(head.prev)]
+    //      [5 waiter dies]
+    struct TwoViewsWorld : World
+    {
+        const char *name() const override { return "c-head-with-cxx-nodes (semaphore-style wait list)"; }
+        unsigned weight(Tier) const override { return 1; }
+        Plan generate(Rng &r, Tier tier) override
+        {
+            Plan p;
+            p.cfg = {(int64_t)r.range(1, 6)};
+            int n = (int)r.range(3, tier == THOROUGH ? 60 : 30);
+            for (int i = 0; i < n; i++) p.ops.push_back({r.chance(1, 2) ? (int64_t)r.below(2) : (int64_t)r.below(6), (int64_t)r.below(6)});
+            return p;
+        }
+        std::string describe(const Plan &p) override
+        {
+            static const char *nm[] = {"park_back", "park_front", "unlink", "c_del_first", "c_del_last", "waiter_dies"};
+            std::string s = "waiters=" + std::to_string(mod(p.c(0) - 1, 6) + 1) + ":";
+            for (auto &o : p.ops) s += std::string(" ") + nm[mod(arg(o, 0), 6)] + "(" + std::to_string(arg(o, 1)) + ")";
+            return s;
+        }
+        struct Waiter
+        {
+            int id;
+            igris::dlist_node lnk;
+        };
+        Result execute(const Plan &p, Trace &tr) override
+        {
+            Result res;
+            int nw = (int)mod(p.c(0) - 1, 6) + 1;
+            std::unique_ptr<struct dlist_head> head(new struct dlist_head);
+            dlist_init(head.get());
+            igris::dlist_base *xhead = reinterpret_cast<igris::dlist_base *>(head.get());
+            std::vector<std::unique_ptr<Waiter>> w;
+            for (int i = 0; i < nw; i++) { w.emplace_back(new Waiter()); w.back()->id = i; }
+            std::vector<int> m; // ids in ring order, front first
+            auto id_of = [&](void *node) -> int {
+                for (int i = 0; i < nw; i++)
+                    if (w[i] && (void *)&w[i]->lnk == node) return i;
+                return -1;
+            };
+            auto check = [&](const char *when) {
+                // the C view: forward and backward walk over raw links, emptiness
+                std::vector<int> fwd, bwd;
+                int guard = 0;
+                for (struct dlist_head *it = head->next; it != head.get() && guard++ < 100; it = it->next) fwd.push_back(id_of(it));
+                guard = 0;
+                for (struct dlist_head *it = head->prev; it != head.get() && guard++ < 100; it = it->prev) bwd.push_back(id_of(it));
+                std::vector<int> rev(m.rbegin(), m.rend());
+                if (fwd != m) violate("C01/two-views-forward", "%s: the C view walks %s forward, the waiters were parked as %s", when, seq(fwd).c_str(), seq(m).c_str());
+                if (bwd != rev) violate("C01/two-views-backward", "%s: the C view walks %s backward, expected %s", when, seq(bwd).c_str(), seq(rev).c_str());
+                if ((dlist_empty(head.get()) != 0) != m.empty()) violate("C01/two-views-empty", "%s: dlist_empty() of the C view says %d, %zu waiters are parked", when, dlist_empty(head.get()), m.size());
+                // the C++ view
+                if (xhead->empty() != m.empty() || (size_t)xhead->size() != m.size()) violate("C01/two-views-size", "%s: the C++ view reports size %d / empty %d for %zu parked waiters", when, (int)xhead->size(), (int)xhead->empty(), m.size());
+                for (int i = 0; i < nw; i++)
+                    if (w[i] && w[i]->lnk.is_linked() != (std::find(m.begin(), m.end(), i) != m.end()))
+                        violate("C01/two-views-is_linked", "%s: waiter %d is_linked()=%d, the model says %d", when, i, (int)w[i]->lnk.is_linked(), (int)!w[i]->lnk.is_linked());
+            };
+            check("init");
+            size_t longest = 0;
+            bool mixed = false;
+            for (auto &o : p.ops)
+            {
+                int k = (int)mod(arg(o, 0), 6), i = (int)mod(arg(o, 1), nw);
+                switch (k)
+                {
+                case 0:
+                case 1:
+                    if (!w[i]) { w[i].reset(new Waiter()); w[i]->id = i; }
+                    if (k == 0) xhead->move_back(w[i]->lnk);
+                    else xhead->move_front(w[i]->lnk);
+                    erase_val(m, i);
+                    if (k == 0) m.push_back(i);
+                    else m.insert(m.begin(), i);
+                    break;
+                case 2:
+                    if (!w[i]) break;
+                    w[i]->lnk.unlink();
+                    erase_val(m, i);
+                    break;
+                case 3:
+                case 4:
+                    if (m.empty()) break;
+                    dlist_del_init(k == 3 ? head->next : head->prev);
+                    if (k == 3) m.erase(m.begin());
+                    else m.pop_back();
+                    if (m.size() >= 1) mixed = true;
+                    break;
+                case 5:
+                    if (!w[i]) break;
+                    w[i].reset(); // ~dlist_node unlinks
+                    erase_val(m, i);
+                    break;
+                }
+                longest = std::max(longest, m.size());
+                tr.ev("op %d w%d -> %zu", k, i, m.size());
+                check("after-op");
+            }
+            if (longest >= 2) probe("c_head_with_two_or_more_cxx_nodes");
+            // the waiters die while parked; the C head goes last
+            for (int i = 0; i < nw; i++) { if (w[i]) { w[i].reset(); erase_val(m, i); check("teardown"); } }
+            res.nontrivial = mixed && longest >= 2;
+            return res;
+        }
+    };
+}
+
 int main(int argc, char **argv)
 {
     CDlistWorld cw;
@@ -1437,7 +1550,8 @@ int main(int argc, char **argv)
     MultiWorld mw;
     Harness h;
     h.property = "C01";
-    h.worlds = {&cw, &xw, &sw, &mw};
+    TwoViewsWorld tv;
+    h.worlds = {&cw, &xw, &sw, &mw, &tv};
     h.real = {"igris/datastruct/dlist.h", "igris/container/dlist.h + dlist.cpp", "igris/datastruct/slist.h", "igris/container/slist.h", "igris/datastruct/hlist.h",
               "igris/util/member.h", "igris/util/memberxx.h"};
     h.stub = {"client tasks (op-level interleaving from the plan) including node and list death", "reference lists (std::vector of item ids)"};
